@@ -25,6 +25,7 @@ pub fn eval_line(line: &str) -> String {
         "v2" => guard(|| Some(op_v2(&bytes_spec(rest)?))),
         "auto" => guard(|| Some(op_auto(&bytes_spec(rest)?))),
         "tlv" => guard(|| Some(op_tlv(&bytes_spec(rest)?))),
+        "rb" => guard(|| Some(op_rb(&bytes_spec(rest)?))),
         "fmt1" => guard(|| Some(hex(parse_v1_addr(rest)?.to_string().as_bytes()))),
         "bld" => guard(|| op_bld(rest)),
         "wr" => guard(|| op_wr(rest)),
@@ -355,6 +356,48 @@ fn op_tlv(input: &[u8]) -> String {
     let it = v2::TypeLengthValues::from(input);
     let meta = format!("slen={} sempty={}", it.len(), b01(it.is_empty()));
     format!("tlvs={} {}", tlv_items(it, input.len()), meta)
+}
+
+/// C13: parse, then rebuild from the parts through the real views and the real builder.
+fn op_rb(input: &[u8]) -> String {
+    let h = match v2::Header::try_from(input) {
+        Ok(h) => h,
+        Err(_) => return "nohdr".to_string(),
+    };
+    let show = |r: std::io::Result<Vec<u8>>| match r {
+        Ok(b) if b == h.as_bytes() => "eq".to_string(),
+        Ok(b) => hex(&b),
+        Err(_) => "err".to_string(),
+    };
+    let (vc, afp) = (h.header[12], h.header[13]);
+    let raw = v2::Builder::new(vc, afp)
+        .write_payload(h.address_bytes())
+        .and_then(|b| b.write_payload(h.tlv_bytes()))
+        .and_then(|b| b.build());
+    let sec = v2::Builder::new(vc, afp)
+        .write_payload(h.address_bytes())
+        .and_then(|b| b.write_payload(h.tlvs()))
+        .and_then(|b| b.build());
+    let items: Result<Vec<v2::TypeLengthValue<'_>>, v2::ParseError> = h.tlvs().collect();
+    let it = match &items {
+        Ok(items) => show(
+            v2::Builder::new(vc, afp)
+                .write_payload(h.address_bytes())
+                .and_then(|b| b.write_payloads(items.iter()))
+                .and_then(|b| b.build()),
+        ),
+        Err(_) => "na".to_string(),
+    };
+    let addr = if h.address_family() != v2::AddressFamily::Unspecified {
+        show(
+            v2::Builder::with_addresses(h.version | h.command, h.protocol, h.addresses)
+                .write_payload(h.tlvs())
+                .and_then(|b| b.build()),
+        )
+    } else {
+        "na".to_string()
+    };
+    format!("hdr={} raw={} sec={} items={} addr={}", hex(h.as_bytes()), show(raw), show(sec), it, addr)
 }
 
 // ---------------------------------------------------------------- builder / writer
